@@ -820,6 +820,47 @@ class SRatio:
         raise Unsupported('float arithmetic on symbolic values')
 
 
+class SRat:
+    """Exact rational num/den (den a positive python int) standing for a
+    float whose computation is exact (small integers, power-of-two or small
+    denominators)."""
+    __slots__ = ('num', 'den')
+
+    def __init__(self, num, den=1):
+        self.num = num
+        self.den = den
+
+    def _co(self, o):
+        if isinstance(o, SRat):
+            return o
+        if isinstance(o, (int, SInt)):
+            return SRat(o, 1)
+        if isinstance(o, float) and o == int(o):
+            return SRat(int(o), 1)
+        raise Unsupported('float arithmetic on symbolic values')
+
+    def __add__(self, o):
+        o = self._co(o)
+        return SRat(self.num * o.den + o.num * self.den, self.den * o.den)
+
+    __radd__ = __add__
+
+    def __truediv__(self, o):
+        if isinstance(o, int) and o > 0:
+            return SRat(self.num, self.den * o)
+        raise Unsupported('float division by symbolic value')
+
+    def __mul__(self, o):
+        o = self._co(o)
+        return SRat(self.num * o.num, self.den * o.den)
+
+    def eq_frac(self, num, den):
+        return self.num * den == num * self.den
+
+    def __float__(self):
+        raise Unsupported('float() of symbolic rational')
+
+
 def is_sym(x):
     return isinstance(x, (SInt, SBool))
 
